@@ -354,7 +354,9 @@ theorem admin_delete_topic (r : Registry) (t : Name) (ht : t ≠ star) :
 /-! ## 3. Concurrency: where handler calls are NOT atomic
 
 The theorems above treat one handler call as one step. In the code each `RegistrationDB` method
-is one critical section, and three handlers are two sections each. The decompositions are
+is one critical section; before commit 994e31e (F12) UNREGISTER's remove-then-prune was two sections
+(`unregister_is_two_sections` describes that OLD code; `RemoveProducerAndPrune` made it one), and
+REGISTER, `/topic/delete`, `/channel/create` still are several sections each. The decompositions are
 exact (`…_is_two_sections`), and two interleavings end in a state that NO serial order of the
 two calls reaches — i.e. "exactly what a plain registry predicts" is false for overlapping
 calls (known findings `race:unregister-gc-vs-register`, `race:register-vs-topic-delete`,
@@ -408,6 +410,81 @@ theorem concurrent_register_delete_linearizable_false : ¬ concurrent_register_d
   cases this with
   | inl h1 => exact absurd (h1 (topicKey [116])) (by decide)
   | inr h2 => exact absurd (h2 (chanKey [116] [99])) (by decide)
+
+/-! ### The repair F21 (one critical section per handler) makes both windows disappear
+
+`registerSecs` / `deleteTopicSecs` / `createChannelSecs` list the critical sections of the three
+handlers, as in the tree (`atomic = false`) and with fixes/F21_lookupd_register_delete_atomic.patch
+(`atomic = true`: `RegistrationDB.RegisterProducer`, `RemoveTopic`, `AddTopicChannel`; tie
+`register_shape`, `admin_topic_shape` accept exactly these two shapes). `interleave` enumerates
+every schedule of two concurrent handler calls. -/
+
+/-- both section lists compose to the handler of the sequential model -/
+theorem sections_compose (atomic : Bool) (db : DB) (p : Nat) (t c : Name) (hc : c ≠ []) :
+    runSecs db (registerSecs atomic p t c) = registerDB db p ⟨t, c⟩ ∧
+    runSecs db (deleteTopicSecs atomic t) = deleteTopicDB db t ∧
+    runSecs db (createChannelSecs atomic t c) = createChannelDB db t c := by
+  cases atomic <;>
+    simp [runSecs, registerSecs, deleteTopicSecs, createChannelSecs, registerDB, hc, regStep1, regStep2,
+      deleteTopicDB, delTopicStep1, delTopicStep2, createChannelDB, createChanStep1, createChanStep2]
+
+/-- With F21: EVERY schedule of REGISTER ‖ `/topic/delete` ends in the state of one of the two
+serial orders (any registry, producer, names — also `topic=*`) … -/
+theorem concurrent_register_delete_linearizable_fixed (db : DB) (p : Nat) (t c : Name) :
+    ∀ s ∈ interleave (registerSecs true p t c) (deleteTopicSecs true t),
+      runSecs db s = deleteTopicDB (registerDB db p ⟨t, c⟩) t ∨
+      runSecs db s = registerDB (deleteTopicDB db t) p ⟨t, c⟩ := by
+  intro s hs
+  simp only [interleave, interleaveF, registerSecs, deleteTopicSecs, if_true, List.length_cons, List.length_nil,
+    List.map_cons, List.map_nil, List.cons_append, List.nil_append, List.mem_cons, List.not_mem_nil, or_false] at hs
+  rcases hs with rfl | rfl <;> simp [runSecs]
+
+/-- … and so does every schedule of `/channel/create` ‖ `/topic/delete`. -/
+theorem concurrent_create_delete_linearizable_fixed (db : DB) (t c : Name) :
+    ∀ s ∈ interleave (createChannelSecs true t c) (deleteTopicSecs true t),
+      runSecs db s = deleteTopicDB (createChannelDB db t c) t ∨
+      runSecs db s = createChannelDB (deleteTopicDB db t) t c := by
+  intro s hs
+  simp only [interleave, interleaveF, createChannelSecs, deleteTopicSecs, if_true, List.length_cons, List.length_nil,
+    List.map_cons, List.map_nil, List.cons_append, List.nil_append, List.mem_cons, List.not_mem_nil, or_false] at hs
+  rcases hs with rfl | rfl <;> simp [runSecs]
+
+/-- "Every schedule of the two handlers is explained by a serial order" (which keys exist), for the
+section lists selected by `atomic`. -/
+def concurrent_schedules_linearizable (atomic : Bool) : Prop :=
+  ∀ (db : DB) (p : Nat) (t c : Name), c ≠ [] → t ≠ star →
+    (∀ s ∈ interleave (registerSecs atomic p t c) (deleteTopicSecs atomic t),
+      (∀ k, has (runSecs db s) k = has (deleteTopicDB (registerDB db p ⟨t, c⟩) t) k) ∨
+      (∀ k, has (runSecs db s) k = has (registerDB (deleteTopicDB db t) p ⟨t, c⟩) k)) ∧
+    (∀ s ∈ interleave (createChannelSecs atomic t c) (deleteTopicSecs atomic t),
+      (∀ k, has (runSecs db s) k = has (deleteTopicDB (createChannelDB db t c) t) k) ∨
+      (∀ k, has (runSecs db s) k = has (createChannelDB (deleteTopicDB db t) t c) k))
+
+theorem concurrent_schedules_linearizable_fixed : concurrent_schedules_linearizable true := by
+  intro db p t c _ _
+  refine ⟨fun s hs => ?_, fun s hs => ?_⟩
+  · rcases concurrent_register_delete_linearizable_fixed db p t c s hs with h | h
+    · left; intro k; rw [h]
+    · right; intro k; rw [h]
+  · rcases concurrent_create_delete_linearizable_fixed db t c s hs with h | h
+    · left; intro k; rw [h]
+    · right; intro k; rw [h]
+
+/-- FALSE on the tree as it is: the schedule `create₁ delete₁ delete₂ create₂` from the empty registry leaves the
+topic without the channel created with it (and REGISTER has the same window, above). -/
+theorem concurrent_schedules_linearizable_unfixed_false : ¬ concurrent_schedules_linearizable false := by
+  intro h
+  have := (h [] 1 [116] [99] (by decide) (by decide)).2
+    [fun db => createChanStep1 db [116] [99], fun db => delTopicStep1 db [116], fun db => delTopicStep2 db [116],
+     fun db => createChanStep2 db [116]]
+    (by simp [interleave, interleaveF, createChannelSecs, deleteTopicSecs])
+  cases this with
+  | inl h1 => exact absurd (h1 (topicKey [116])) (by decide)
+  | inr h2 => exact absurd (h2 (chanKey [116] [99])) (by decide)
+
+/-- non-vacuity: the unfixed handlers have six schedules each, the fixed ones two -/
+example : (interleave (registerSecs false 1 [116] [99]) (deleteTopicSecs false [116])).length = 6 ∧
+    (interleave (registerSecs true 1 [116] [99]) (deleteTopicSecs true [116])).length = 2 := by decide
 
 /-- The provable part: when the two calls do not overlap (any serial order) the refinement
 theorems apply — `refines_run` is exactly that statement for histories of any length. With
